@@ -106,9 +106,11 @@ type TD struct {
 	gateParts map[string]bool
 	gateSig   map[string]bool
 	gateDone  bool
+	gateFiring bool
 	gateEpoch int
 	stuck     bool
 	dead      bool
+	injDone   map[string]bool
 }
 
 func errNameT(err error) string {
@@ -276,6 +278,10 @@ func (d *TD) hook(point string) {
 	k := d.counts[point]
 	if point == "gate.done" {
 		d.gateDone = true
+		d.gateFiring = false
+	}
+	if point == "gate.fire" {
+		d.gateFiring = true
 	}
 	ops, armed := d.gateOps[point]
 	key := point
@@ -363,6 +369,9 @@ func (d *TD) handPending() string {
 func (d *TD) gatePending() string {
 	d.hmu.Lock()
 	defer d.hmu.Unlock()
+	if d.gateFiring {
+		return "gate-open-in-progress"
+	}
 	if d.gateDone || len(d.gateParts) == 0 {
 		return ""
 	}
@@ -394,6 +403,7 @@ func (d *TD) settle() string {
 		return ""
 	}
 	deadline := time.Now().Add(12 * time.Second)
+	start := time.Now()
 	stableSince := time.Time{}
 	lastEv := int64(-1)
 	for {
@@ -414,10 +424,14 @@ func (d *TD) settle() string {
 			stableSince = time.Time{}
 		}
 		lastEv = ev
-		if time.Now().After(deadline) {
+		if time.Now().After(deadline) || (reason == "gate-open-in-progress" && time.Since(start) > 1500*time.Millisecond) {
 			d.stuck = true
 			a := mkArgs()
 			a.Note = reason
+			a.Kind = "gate"
+			if strings.HasPrefix(reason, "hand-") || strings.HasPrefix(reason, "game-queue") {
+				a.Kind = "hand"
+			}
 			d.rec.Emit("stuck", a, "", d.te, nil, nil, false)
 			return reason
 		}
@@ -572,11 +586,27 @@ func (d *TD) exec(o Op) string {
 		a.Blind = append([]int64{}, o.Blind...)
 		return d.call("UpdateBlind", &a, func() error { te.UpdateBlind(int(o.Blind[0]), o.Blind[1], o.Blind[2], o.Blind[3], o.Blind[4]); return nil })
 	case "pause":
+		d.rec.Emit("call:PauseTable", a, "", d.te, nil, nil, false)
 		return d.call("PauseTable", &a, func() error { return te.PauseTable() })
 	case "close":
+		d.rec.Emit("call:CloseTable", a, "", d.te, nil, nil, false)
 		return d.call("CloseTable", &a, func() error { return te.CloseTable() })
 	case "release":
+		d.rec.Emit("call:ReleaseTable", a, "", d.te, nil, nil, false)
 		return d.call("ReleaseTable", &a, func() error { return te.ReleaseTable() })
+	case "finishall":
+		d.hmu.Lock()
+		ids := []string{}
+		for id := range d.gateParts {
+			ids = append(ids, id)
+		}
+		d.hmu.Unlock()
+		sort.Strings(ids)
+		r := "ok"
+		for _, id := range ids {
+			r = d.exec(Op{Op: "finish", ID: id})
+		}
+		return r
 	case "extend":
 		a.ID, a.Amt = o.ID, o.Amt
 		return d.call("PlayerExtendActionDeadline", &a, func() error {
@@ -679,6 +709,14 @@ func has(l []string, s string) bool {
 }
 
 func (d *TD) runInj(plan *HandPlan, at string) {
+	if d.injDone == nil {
+		d.injDone = map[string]bool{}
+	}
+	key := fmt.Sprintf("%p/%s", plan, at)
+	if d.injDone[key] {
+		return
+	}
+	d.injDone[key] = true
 	for _, in := range plan.Inj {
 		if in.At == at {
 			for _, o := range in.Ops {
@@ -848,7 +886,8 @@ func (d *TD) playHand(plan *HandPlan) string {
 		if st.Status != pt.TableStateStatus_TableGamePlaying && st.Status != pt.TableStateStatus_TableGameOpened {
 			if st.GameState == nil || st.Status == pt.TableStateStatus_TableGameStandby || st.Status == pt.TableStateStatus_TablePausing || st.Status == pt.TableStateStatus_TableClosed {
 				if st.GameState != nil && (st.Status == pt.TableStateStatus_TablePausing || st.Status == pt.TableStateStatus_TableClosed) {
-					// externally paused / closed with a live hand: keep playing it out
+					// externally paused / closed with a live hand: the engine refuses every game action from now on
+					return "ended"
 				} else {
 					d.runInj(plan, "settled")
 					return "played"
